@@ -46,7 +46,10 @@ def gen_text(rng):
     # bytes are its UTF-8 encoding as is - no normalisation
     alphabet = ["a", "Z", "0", " ", "é", "ß", "슬", "듢", "芬", "\U0001F600", "\U00010348", "\u0000", "߿", "ࠀ", "￿",
                 "e\u0301", "A\u030a", "\u212b", "\u1112\u1161\u11ab", "\ufb01", "\u2126", "o\u0323\u0302", "\u0344", "\ue188"]
-    return "".join(rng.choice(alphabet) for _ in range(rng.randrange(0, 12)))
+    t = "".join(rng.choice(alphabet) for _ in range(rng.randrange(0, 12)))
+    if rng.random() < 0.03:
+        t += "\ud800"  # lone surrogate: bytearray(key, "UTF-8") raises UnicodeEncodeError
+    return t
 
 
 def gen_parts(rng, allow_empty=False):
@@ -79,21 +82,31 @@ def hashed_cases(ctx, res, n):
             kind = rng.choice(["bytes", "bytes", "bytearray", "text"])
             if kind == "text":
                 t = gen_text(rng)
-                key_obj, kb = t, t.encode("utf-8")
+                key_obj, kb = t, t.encode("utf-8", "surrogatepass")
             else:
                 kb = gen_key(rng, i)
                 key_obj = bytearray(kb) if kind == "bytearray" else kb
             ps = gen_parts(rng, allow_empty=(rng.random() < 0.03))
             h = P.pure_murmur2(bytearray(kb))
             lines.append("murmur " + hx(kb)); expect.append(["int %d" % h]); meta.append(("murmur", kb, None))
+            if kind == "text" and any(0xD800 <= ord(c) <= 0xDFFF for c in t):
+                res.count("text_key_lone_surrogate")
             try:
                 r = hp.partition(key_obj, ps)
                 o = "int %d" % r
-            except ZeroDivisionError:
+            except (ZeroDivisionError, UnicodeEncodeError):
                 r, o = None, "error"
-            lines.append("hashed %s %s" % (hx(kb), ints(ps))); expect.append([o]); meta.append(("hashed", kb, ps))
-            if r is not None:
-                lines.append("mon-hash %s %s %d" % (hx(kb), ints(ps), r)); expect.append(["ok"]); meta.append(("mon-hash", kb, ps, r))
+            if kind == "text":
+                # the model gets the CODE POINTS and encodes them itself (its own RFC 3629 encoder)
+                cps = ints([ord(c) for c in t])
+                lines.append("hashed-text %s %s" % (cps, ints(ps))); expect.append([o]); meta.append(("hashed", kb, ps))
+                if r is not None:
+                    lines.append("mon-hash-text %s %s %d" % (cps, ints(ps), r)); expect.append(["ok"]); meta.append(("mon-hash", kb, ps, r))
+                    res.count("text_key_monitored")
+            else:
+                lines.append("hashed %s %s" % (hx(kb), ints(ps))); expect.append([o]); meta.append(("hashed", kb, ps))
+                if r is not None:
+                    lines.append("mon-hash %s %s %d" % (hx(kb), ints(ps), r)); expect.append(["ok"]); meta.append(("mon-hash", kb, ps, r))
             res.evaluations += 1
             res.count("key_len_mod4=%d" % (len(kb) % 4)); res.count("key_kind=" + kind)
             if any(x >= 0x80 for x in kb[len(kb) & ~3:]):
@@ -130,6 +143,7 @@ def rr_history(P, rng, random_start):
     P.RoundRobinPartitioner.set_random_start(random_start)
     lines, outs, windows = [], [], []
     members = []
+    errors = [0]
     try:
         ps = gen_parts(rng, allow_empty=(rng.random() < 0.05))
         sr.next = rng.randrange(0, 16)
@@ -165,8 +179,14 @@ def rr_history(P, rng, random_start):
                 try:
                     x = p.partition(None, cur)
                 except (StopIteration, ValueError):
+                    # the partitioner object survives the exception (it stored the new list before
+                    # raising): keep going, the model does the same (rrAfterError)
                     outs.append(["error"])
-                    return lines, outs, windows, members
+                    run = []
+                    errors[0] += 1
+                    if errors[0] > 3:
+                        return lines, outs, windows, members
+                    break
                 outs.append(["int %d" % x])
                 run.append(x)
                 members.append((list(cur), x))
@@ -193,6 +213,8 @@ def rr_cases(ctx, res, n):
             got = ctx.model("partitioner", lines + mon + mon2)
             res.evaluations += 1
             res.count("rr_random_start=%s" % rs); res.count("rr_calls", len(lines) - 1); res.count("rr_windows", len(windows))
+            res.count("rr_calls_raising", sum(1 for o in outs if o == ["error"]))
+            res.count("rr_calls_after_a_raise", sum(1 for k, o in enumerate(outs) if ["error"] in outs[:k]))
             if len(lines) > 3:
                 res.nontrivial(lines)
             res.sample({"op": "rr-history", "random_start": rs, "lines": lines[:8], "impl": outs[:8]}, limit=5)
